@@ -234,13 +234,33 @@ def _source_encoding(source):
     for line in source.splitlines()[:2]:
         declaration = re.match(br'^[ \t\f]*#.*?coding[:=][ \t]*([-\w.]+)', line)
         if declaration:
-            return declaration.group(1).decode('ascii')
+            return _normal_encoding_name(declaration.group(1).decode('ascii'))
 
         if not re.match(br'^[ \t\f]*(?:#.*)?$', line):
             # A declaration on the second line only counts if the first line is blank or a comment
             break
 
     return 'utf-8'
+
+
+def _normal_encoding_name(name):
+    """
+    The codec for a declared encoding name
+
+    The tokenizer accepts utf-8 and latin-1 with a suffix (the emacs end of line convention, e.g. utf-8-unix),
+    which the codec registry doesn't know.
+    """
+
+    normal = name[:12].lower().replace('_', '-')
+
+    if normal == 'utf-8' or normal.startswith('utf-8-'):
+        return 'utf-8'
+
+    for latin_1 in ['latin-1', 'iso-8859-1', 'iso-latin-1']:
+        if normal == latin_1 or normal.startswith(latin_1 + '-'):
+            return 'iso-8859-1'
+
+    return name
 
 
 def unparse(module):
